@@ -24,7 +24,10 @@ from ..oracles import scm_eval as S
 
 PROP = "C01"
 RULE = ("ADMGs with 2-5 nodes (thorough: up to 6; half random, half mutations of textbook seeds: napkin, front door, "
-        "Verma, bow, line-7 chains; isolated and irrelevant nodes, several districts) x disjoint non-empty X, Y; corpus = "
+        "Verma, bow, line-7 chains; isolated and irrelevant nodes, several districts) x disjoint non-empty X, Y; plus "
+        "structured napkin-like graphs with 5-7 nodes (outcome district of 2-3 nodes, optional outer napkin layer / "
+        "mediator district / irrelevant node, random relabelling) that drive ID through 7->6, 7->2->6 and 7->7 with "
+        "conditionals read off a carried estimand for a child that is not last (tag pp_carried_nonlast); corpus = "
         "y0.examples graphs with <= 6 nodes and the F3 witness (napkin). Every returned estimand is evaluated exactly on "
         "2-3 random positive SCMs compatible with the graph at every assignment. A case is non-trivial when ID returned "
         "an estimand and the run used at least one of lines 4, 6, 7.")
@@ -70,6 +73,15 @@ def _example_cases(max_nodes):
 def cases(rng: random.Random, tier: str):
     nmax = 5 if tier == "quick" else 6
     out = [dict(c) for c in _corpus()] + _example_cases(nmax + 1 if tier == "quick" else 7)
+    # structured: napkin-like graphs whose outcome district has several nodes (line 7 -> 6 / 7 -> 2 -> 6 / 7 -> 7 with
+    # conditionals read off a carried estimand for a child that is not last in the order), see R.napkin_family
+    ns = 900 if tier == "quick" else 5000
+    for k in range(ns):
+        g, X, Y, kind = R.napkin_family(rng, (5, 6, 7, 6, 7, 5)[k % 6])
+        big = len(G.all_nodes(g)) >= 6
+        # the exact evaluation is exponential in the number of nodes: binary variables and one model for >= 6 nodes
+        out.append({"g": g, "X": X, "Y": Y, "label": "structured:" + kind, "seed": rng.randrange(1 << 30),
+                    "max_states": 64 if big else 250, "models": 1 if big else 2})
     n = 3500 if tier == "quick" else 24000
     for k in range(n):
         g = R.gen_graph(rng, 2, nmax if k % 4 else 4)
@@ -88,6 +100,8 @@ def is_valid(case):
 
 
 def n_models(case):
+    if case.get("models"):
+        return case["models"]
     n = len(G.all_nodes(case["g"]))
     return 3 if n <= 4 else 2
 
@@ -97,7 +111,8 @@ def semantic_check(case, expr, *, models=None):
     g = case["g"]
     for i in range(models or n_models(case)):
         seed = (case.get("seed", 0) * 31 + i * 7919 + 5) & 0x7FFFFFFF
-        scm = S.random_scm(random.Random(seed), g, max_states=250, drop_parent=0.15 if i == 2 else 0.0)
+        scm = S.random_scm(random.Random(seed), g, max_states=case.get("max_states", 250),
+                           drop_parent=0.15 if i == 2 else 0.0)
         truth = scm.do_table(case["X"], case["Y"])
         try:
             est = S.eval_expr(expr, scm)
@@ -120,6 +135,9 @@ def run_python(case):
             "outcome": "ok" if r["exc"] is None else r["exc"], "n_x": len(case["X"]), "n_y": len(case["Y"]),
             "has_isolated": len(V) > len({x for e in g["di"] + g["bi"] for x in e})}
     tags.update(R.line_tags(r["lines"]))
+    tags.update(R.pp_tags(r.get("pp")))
+    if tags["kind"] == "structured":
+        tags["structured_kind"] = case["label"].split(":", 1)[1]
     fail = None
     if valid and r["exc"] is None:
         fail = semantic_check(case, r["expr"])
@@ -129,8 +147,22 @@ def run_python(case):
     return {"out": r["out"], "fail": fail, "nontrivial": nontrivial, "tags": tags}
 
 
+_memo = {}
+
+
+def _run_memo(case):
+    """the real run of a case, once per process for `request` and `canon_model` (both run serially in the main
+    process; the run is deterministic within a process — same hash seed, same recorded topological orders)"""
+    k = json.dumps([case["g"], case["X"], case["Y"]], sort_keys=True)
+    if k not in _memo:
+        if len(_memo) > 50000:
+            _memo.clear()
+        _memo[k] = R.run_identify(case["g"], case["X"], case["Y"])
+    return _memo[k]
+
+
 def request(case):
-    r = R.run_identify(case["g"], case["X"], case["Y"])
+    r = _run_memo(case)
     tape, _ = R.tape_sexp(r["tape"])
     g = case["g"]
     gs = C.graph_sexp(G.all_nodes(g), g["di"], g["bi"])
@@ -141,7 +173,7 @@ def canon_model(case, rep):
     m = R.model_out(rep)
     if m[0] != "ok":
         return m
-    r = R.run_identify(case["g"], case["X"], case["Y"])
+    r = _run_memo(case)
     if r["out"] == m:
         _drift["structural"] += 1
         return m
